@@ -640,7 +640,7 @@ func c13GenPostfinance(r *RNG) *c13Stmt {
 				last = c13Num(r, eff, "'", tags)
 			}
 		}
-		rec := []string{dmyDot(days[i]), c13Text(r, to, tags), gut, last, c13Text(r, to, tags), c13Text(r, to, tags), dmyDot(days[i])}
+		rec := []string{dmyDot(days[i]), c13Text(r, to, tags), gut, last, c13Text(r, to, tags), c13Text(r, to, tags), dmyDot(days[i] + r.Intn(3))}
 		if r.Chance(5, 6) {
 			rec = append(rec, c13Num(r, c13Amount(r, c13AmtOpts{MaxDecimals: 2}, map[string]bool{}), "", map[string]bool{}))
 		} else {
@@ -852,7 +852,8 @@ func c13GenWise(r *RNG) *c13Stmt {
 		}
 		id := Pick(r, []string{"CARD_TRANSACTION-", "TRANSFER-", "BALANCE_TRANSACTION-", "x_y-z-"}) + fmt.Sprint(r.Range(1, 99999))
 		created := ymd(days[i]) + " 15:20:30"
-		recs = append(recs, []string{id, status, dir, created, created, sfa, sfc, tfa, tfc, c13Text(r, to, tags), c13Num(r, sa, "", tags), sc, c13Text(r, to, tags), c13Num(r, ta, "", tags), tc, "1.75685000", "", ""})
+		finished := ymd(days[i]+r.Intn(4)) + " 01:33:37"
+		recs = append(recs, []string{id, status, dir, created, finished, sfa, sfc, tfa, tfc, c13Text(r, to, tags), c13Num(r, sa, "", tags), sc, c13Text(r, to, tags), c13Num(r, ta, "", tags), tc, "1.75685000", "", ""})
 		if status == "CANCELLED" {
 			continue
 		}
